@@ -418,7 +418,10 @@ def bounded(tier):
           p1 = jp.sum(st.mass[:, None] * st.xd_i.vel, axis=0)
           if not bool(jp.all(jp.isfinite(p1))):
             break          # unstable simulation: counted, not compared beyond this point
-          err = float(jp.max(jp.abs(p1 - p0 - mtot * sys.gravity * sys.opt.timestep))) / max(1.0, float(jp.max(jp.abs(p1))))
+          # "to round-off": the cancellation error of the sum scales with the individual link momenta (which blow up in an unstable simulation while the
+          # total stays put), not with the net momentum
+          scale = max(1.0, float(jp.sum(st.mass * jp.max(jp.abs(st.xd_i.vel), axis=1))), float(jp.max(jp.abs(p0))))
+          err = float(jp.max(jp.abs(p1 - p0 - mtot * sys.gravity * sys.opt.timestep))) / scale
           evals += 1
           distinct.add((k, pipeline, t))
           worst = max(worst, err)
